@@ -116,6 +116,9 @@ def run(ctx):
                     reads.append((f, n))
             if isinstance(n, ast.Attribute) and n.attr == 'color_output' and isinstance(n.ctx, ast.Load):
                 reads.append((f, n))
+    # (a read inside a logging argument, or inside a freshly added accessor / __repr__, counts for the places that use the result)
+    from . import common as _cmn17
+    reads = [(g_, n) for f, n in reads for g_ in _cmn17.effective_readers(repo, f, n)]
     for f, n in reads:
         ctx.check(f is f_color, 'C17.1', 'switch-read:%s' % f.qual, f.loc(n), 'the colour switch is read only by color()', 'the colour switch is also read in %s' % f.short)
     ctx.floor('C17.1', len(reads), 1, 'reads of color_output')
@@ -458,6 +461,10 @@ def run(ctx):
         if not bad:
             ctx.ok('C17.5', f.loc(), 'input:%s' % f.name, '%s removes colour from the pasted text before any string operation on it (%d operations examined)' % (f.name, nops))
         ctx.floor('C17.5', nops, 2, 'string operations on the pasted text in ' + q)
+    # the prompt hands each typed line to the dispatcher whole and as typed: colour is stripped there (above), so nothing may take the text apart
+    # before it - the turn rule of the prompt loop (C10.7), evaluated here
+    from .c10 import check_prompt_turns
+    check_prompt_turns(ctx, 'C17.5')
     return ('enumeration of escape literals and switch reads, path enumeration of color() with symbolic string pieces, abstract evaluation of all colour '
             'codes and automata inclusion in no_color\'s pattern, taint of coloured text into layout computations, sanitiser ordering on the input side. '
             'Decided: %s. Undecided: %s' % ('; '.join(ctx.decided), '; '.join(ctx.undecided)))
